@@ -31,6 +31,9 @@ pub struct WrapShared {
     pub last_ret: Cell<Option<LastRet>>,
     /// registered according to the calls seen (register/unregister alternate)
     pub registered: Cell<bool>,
+    /// fd sources: the callback asked the holder to unwrap its Generic after this event
+    pub unwrap_now: Cell<bool>,
+    pub unwrapped: Cell<bool>,
 }
 
 impl WrapShared {
